@@ -296,7 +296,11 @@ def get_double(value: FloatArgType, xsd_version: str | None = None) -> float:
     elif math.isnan(value):
         return math.nan
 
-    return float(value)
+    try:
+        return float(value)
+    except OverflowError:
+        # an integer or a decimal beyond the xs:double range is cast to an infinity
+        return math.inf if value > 0 else -math.inf  # type: ignore[operator]
 
 
 def numeric_equal(op1: MathArgType, op2: MathArgType) -> bool:
